@@ -1,3 +1,246 @@
 import LenaModel.Model.C03
+/-! # C03 — lemmas: the loops of `Split.run` are folds; blocks; per-branch lives -/
+
 namespace Lena.C03
+
+variable {σ α : Type}
+
+/-! ## list facts -/
+
+theorem getElem_mid {β : Type} (pre post : List β) (b : β)
+    (h : pre.length < (pre ++ b :: post).length) : (pre ++ b :: post)[pre.length] = b := by
+  simp
+
+theorem eraseIdx_mid {β : Type} (pre post : List β) (b : β) :
+    (pre ++ b :: post).eraseIdx pre.length = pre ++ post := by
+  induction pre with
+  | nil => simp
+  | cons x r ih => simp [ih]
+
+theorem set_mid {β : Type} (pre post : List β) (b b' : β) :
+    (pre ++ b :: post).set pre.length b' = pre ++ b' :: post := by
+  induction pre with
+  | nil => simp
+  | cons x r ih => simp [ih]
+
+/-! ## the loop over active sequences is a fold -/
+
+/-- zipper form of the loop invariant: `ind = pre.length`, `active_seqs = pre ++ post` -/
+theorem blockLoop_zipper (copyBuf : Bool) (buf : List α) :
+    ∀ (fuel : Nat) (pre post : List (Branch σ α)) (acc : List (Ev α)), post.length < fuel + 1 →
+      blockLoop copyBuf buf (fuel + 1) pre.length (pre ++ post) acc =
+        (acc ++ (foldB (stepBranch buf) post).1, pre ++ (foldB (stepBranch buf) post).2) := by
+  intro fuel
+  induction fuel with
+  | zero =>
+    intro pre post acc h
+    have : post = [] := by cases post <;> simp_all
+    subst this
+    simp [blockLoop, foldB]
+  | succ fuel ih =>
+    intro pre post acc h
+    cases post with
+    | nil => simp [blockLoop, foldB]
+    | cons b post =>
+      unfold blockLoop
+      have hlt : pre.length < (pre ++ b :: post).length := by simp
+      simp only [hlt, dite_true, getElem_mid pre post b hlt, deepcopy, ite_self]
+      cases hs : stepBranch buf b with
+      | mk out nb =>
+        cases nb with
+        | none =>
+          simp only [eraseIdx_mid]
+          rw [ih pre post (acc ++ out) (by simpa using h)]
+          simp [foldB, hs, List.append_assoc]
+        | some b' =>
+          simp only [set_mid]
+          have e : pre ++ b' :: post = (pre ++ [b']) ++ post := by simp
+          have el : pre.length + 1 = (pre ++ [b']).length := by simp
+          rw [e, el, ih (pre ++ [b']) post (acc ++ out) (by simpa using h)]
+          simp [foldB, hs, List.append_assoc]
+
+/-- the loop as started by `Split.run` (`ind = 0`) is the fold, for every `copy_buf` -/
+theorem blockLoop_eq_fold (copyBuf : Bool) (buf : List α) (act : List (Branch σ α)) (acc : List (Ev α)) :
+    blockLoop copyBuf buf (act.length + 1) 0 act acc =
+      (acc ++ (foldB (stepBranch buf) act).1, (foldB (stepBranch buf) act).2) := by
+  have := blockLoop_zipper copyBuf buf act.length [] act acc (by omega)
+  simpa using this
+
+/-! ## blocks -/
+
+theorem blocksFuel_nil (b n : Nat) : blocksFuel b n ([] : List α) = [] := by
+  cases n <;> rfl
+
+/-- one more unit of fuel than needed changes nothing -/
+theorem blocksFuel_fuel (b : Nat) (hb : 0 < b) :
+    ∀ (n m : Nat) (xs : List α), xs.length ≤ n → xs.length ≤ m → blocksFuel b n xs = blocksFuel b m xs := by
+  intro n
+  induction n with
+  | zero =>
+    intro m xs h _
+    have : xs = [] := by cases xs <;> simp_all
+    subst this
+    simp [blocksFuel_nil]
+  | succ n ih =>
+    intro m xs hn hm
+    cases xs with
+    | nil => simp [blocksFuel_nil]
+    | cons x xs =>
+      cases m with
+      | zero => simp at hm
+      | succ m =>
+        simp only [blocksFuel]
+        congr 1
+        apply ih
+        · simp only [List.length_drop, List.length_cons] at hn ⊢; omega
+        · simp only [List.length_drop, List.length_cons] at hm ⊢; omega
+
+/-- unfolding equation of `blocks` for a natural `bufsize` -/
+theorem blocks_some_cons (b : Nat) (hb : 0 < b) (x : α) (xs : List α) :
+    blocks (some b) (x :: xs) = (x :: xs).take b :: blocks (some b) ((x :: xs).drop b) := by
+  simp only [blocks, List.length_cons, blocksFuel]
+  congr 1
+  apply blocksFuel_fuel b hb
+  · simp only [List.length_drop, List.length_cons]; omega
+  · simp
+
+@[simp] theorem blocks_nil (bs : Option Nat) : blocks bs ([] : List α) = [] := by
+  cases bs <;> simp [blocks, blocksFuel_nil]
+
+/-- `readBlock` and `blocks`: the buffer read is the first block, the rest of the flow gives the
+remaining blocks -/
+theorem blocks_readBlock (bs : Option Nat) (hbs : bs ≠ some 0) (flow : List α) (hne : flow ≠ []) :
+    (readBlock bs flow).1 ≠ [] ∧
+      blocks bs flow = (readBlock bs flow).1 :: blocks bs (readBlock bs flow).2 := by
+  cases bs with
+  | none =>
+    cases flow with
+    | nil => exact absurd rfl hne
+    | cons x xs => simp [readBlock, blocks]
+  | some b =>
+    have hb : 0 < b := by
+      cases b with
+      | zero => exact absurd rfl hbs
+      | succ b => omega
+    cases flow with
+    | nil => exact absurd rfl hne
+    | cons x xs =>
+      refine ⟨?_, ?_⟩
+      · cases b with
+        | zero => omega
+        | succ b => simp [readBlock]
+      · simp only [readBlock]
+        exact blocks_some_cons b hb x xs
+
+theorem readBlock_length (bs : Option Nat) (hbs : bs ≠ some 0) (flow : List α) (hne : flow ≠ []) :
+    (readBlock bs flow).2.length < flow.length := by
+  cases bs with
+  | none =>
+    cases flow with
+    | nil => exact absurd rfl hne
+    | cons x xs => simp [readBlock]
+  | some b =>
+    cases b with
+    | zero => exact absurd rfl hbs
+    | succ b =>
+      cases flow with
+      | nil => exact absurd rfl hne
+      | cons x xs => simp only [readBlock, List.length_drop, List.length_cons]; omega
+
+theorem readBlock_nil (bs : Option Nat) : (readBlock bs ([] : List α)) = ([], []) := by
+  cases bs <;> simp [readBlock]
+
+/-! ## the loop over blocks is a fold over `blocks` -/
+
+theorem outerLoop_eq_passes (copyBuf : Bool) (bs : Option Nat) (hbs : bs ≠ some 0) :
+    ∀ (fuel : Nat) (flow : List α) (act : List (Branch σ α)) (acc : List (Ev α)) (fwe : Bool),
+      flow.length < fuel →
+      outerLoop copyBuf bs fuel flow act acc fwe =
+        (acc ++ (passes (blocks bs flow) act).1, (passes (blocks bs flow) act).2,
+          fwe && (blocks bs flow).isEmpty) := by
+  intro fuel
+  induction fuel with
+  | zero => intro flow act acc fwe h; omega
+  | succ fuel ih =>
+    intro flow act acc fwe h
+    unfold outerLoop
+    cases flow with
+    | nil => simp [readBlock_nil, passes]
+    | cons x xs =>
+      obtain ⟨hne, hbl⟩ := blocks_readBlock bs hbs (x :: xs) (by simp)
+      have hlen := readBlock_length bs hbs (x :: xs) (by simp)
+      have hemp : (readBlock bs (x :: xs)).1.isEmpty = false := by
+        cases h1 : (readBlock bs (x :: xs)).1 with
+        | nil => exact absurd h1 hne
+        | cons _ _ => rfl
+      simp only [hemp, Bool.false_eq_true, ↓reduceIte, blockLoop_eq_fold]
+      rw [ih _ _ _ _ (by omega), hbl]
+      simp [passes, List.append_assoc]
+
+/-! ## events carry the id of their branch; a branch keeps its id, kind and methods -/
+
+theorem fillBuf_branch (i : Nat) (ops : Ops σ α) :
+    ∀ (s : σ) (buf : List α), ∀ e ∈ (fillBuf i ops s buf).1, e.branch = some i := by
+  intro s buf
+  induction buf generalizing s with
+  | nil => simp [fillBuf]
+  | cons x xs ih =>
+    intro e he
+    simp only [fillBuf] at he
+    cases hf : ops.fill s x with
+    | mk s' st =>
+      cases st with
+      | true => simp [hf] at he; subst he; rfl
+      | false =>
+        simp only [hf, List.mem_cons] at he
+        rcases he with rfl | he
+        · rfl
+        · exact ih s' e he
+
+theorem outs_branch (i : Nat) (vals : List α) : ∀ e ∈ outs i vals, e.branch = some i := by
+  intro e he
+  simp only [outs, List.mem_map] at he
+  obtain ⟨v, _, rfl⟩ := he
+  rfl
+
+theorem stepBranch_branch (buf : List α) (b : Branch σ α) :
+    ∀ e ∈ (stepBranch buf b).1, e.branch = some b.id := by
+  intro e he
+  unfold stepBranch at he
+  cases hk : b.kind <;> simp only [hk] at he
+  · simp only [List.mem_cons] at he
+    rcases he with rfl | he
+    · rfl
+    · exact outs_branch _ _ e he
+  · split at he
+    · simp only [List.mem_append, List.mem_cons] at he
+      rcases he with he | rfl | he
+      · exact fillBuf_branch _ _ _ _ e he
+      · rfl
+      · exact outs_branch _ _ e he
+    · exact fillBuf_branch _ _ _ _ e he
+  · simp only [List.mem_append, List.mem_cons] at he
+    rcases he with he | rfl | he
+    · exact fillBuf_branch _ _ _ _ e he
+    · rfl
+    · exact outs_branch _ _ e he
+  · simp only [List.mem_cons] at he
+    rcases he with rfl | he
+    · rfl
+    · exact outs_branch _ _ e he
+
+/-- what `stepBranch` keeps of a branch that stays active -/
+theorem stepBranch_some (buf : List α) (b b' : Branch σ α) (h : (stepBranch buf b).2 = some b') :
+    b'.id = b.id ∧ b'.kind = b.kind ∧ b'.ops = b.ops ∧ b.kind ≠ .source := by
+  unfold stepBranch at h
+  cases hk : b.kind <;> simp only [hk] at h
+  · simp at h
+  · split at h
+    · simp at h
+    · simp only [Option.some.injEq] at h; subst h; simp [hk]
+  · split at h
+    · simp at h
+    · simp only [Option.some.injEq] at h; subst h; simp [hk]
+  · simp only [Option.some.injEq] at h; subst h; simp [hk]
+
 end Lena.C03
